@@ -218,29 +218,7 @@ func init() {
 	})
 }
 
-// writerEffect: a library function wrote to an io.Writer value; if the writer is one of the
-// package's own writers its state may change (havoc of its frame).
+// writerEffect: a library function wrote to an io.Writer value.
 func (x *Exec) writerEffect(fr *Frame, st *State, w Value, pos token.Pos) {
-	iv, ok := w.(VIface)
-	if !ok {
-		return
-	}
-	_ = iv
-	// conservative: any package writer type's Write may run
-	for _, t := range x.eng.concreteTypes {
-		sel := x.eng.prog.MethodSets.MethodSet(t).Lookup(x.eng.home, "Write")
-		if sel == nil {
-			continue
-		}
-		if fn := x.eng.prog.MethodValue(sel); fn != nil && fn.Pkg != nil && x.eng.isHome(fn.Pkg.Pkg) {
-			fs := x.eng.frameOf(fn)
-			if fs.all {
-				x.havocAll(st)
-				return
-			}
-			for _, k := range sortedKeys(fs.keys) {
-				x.havocKey(st, k, fs.keys[k])
-			}
-		}
-	}
+	x.homeMethodEffect(st, w, "Write")
 }
